@@ -55,7 +55,7 @@ theorem c03_long_name_persisted (name : List Nat) (cks : Nat) (hne : name ≠ []
 theorem c03_fs_synced_step (v : Model.Fs.Vol) (count : Nat) (hv : Proofs.FsInv.VolOK v count) (s : Model.Fs.St)
     (h : Proofs.FsInv.Inv v count s) (hs : Proofs.FsSync.Sync s) (op : Model.Fs.Op) :
     Proofs.FsSync.Sync (Model.Fs.step v s op).1 :=
-  (Proofs.FsInv.step_good hv h op).2.2 hs
+  (Proofs.FsInv.step_good hv h op).2.2.1 hs
 
 /-- all histories -/
 theorem c03_fs_synced (v : Model.Fs.Vol) (count : Nat) (hv : Proofs.FsInv.VolOK v count) (s : Model.Fs.St)
